@@ -442,6 +442,11 @@ class Connection(ExportImport):
                 del obj._p_oid
                 if obj._p_changed:
                     obj._p_changed = False
+            elif oid in self._creating:
+                # A new object that has been stored already: it is
+                # disowned below (_invalidate_creating) and keeps its
+                # state, which exists nowhere else.
+                pass
             else:
                 # Note: If we invalidate a non-ghostifiable object
                 # (i.e. a persistent class), the object will
@@ -676,7 +681,9 @@ class Connection(ExportImport):
         # by another thread, so the risk of a reread is pretty low.
         # It's really not worth the effort to pursue this.
 
-        self._cache.invalidate(self._modified)
+        # (New objects are disowned, not reloaded: they keep their state.)
+        self._cache.invalidate(
+            [oid for oid in self._modified if oid not in self._creating])
         self._invalidate_creating()
         while self._added:
             oid, obj = self._added.popitem()
